@@ -281,6 +281,35 @@ def run(ctx):
             if not (close(lo2, lo, R9) and close(hi2, hi, R9)):
                 ctx.violation("C11:unprefixed-changes-si-value", f"{q!r}.unprefixed() = {un!r}", {"unit": base_term, "a": pa[0]})
             ctx.count("identities/unprefixed_si_value")
+    # mixed-base arithmetic that cancels or lands exactly on a registered prefix ((Mega*Mebi)/Mebi is Mega, kB/kB is the
+    # identity): afterwards the registered prefixes are what they were declared as - exact integers - on units nobody has
+    # quantified yet, with magnitudes beyond 2**53 where a float factor would show
+    si_ = [(n, p) for n, p in prefixes if p.base == 10 and isinstance(p.exponent, int) and 0 < p.exponent <= 24]
+    iec_ = [(n, p) for n, p in prefixes if p.base == 2 and isinstance(p.exponent, int)]
+    byte_ = pools.units.get("byte")
+    for k in range(ctx.scale(40, 3000)):
+        if not si_ or not iec_:
+            break
+        (n1, p1), (n2, p2) = rng.choice(si_), rng.choice(iec_)
+        ctx.count("evaluations")
+        ctx.count("mixed_base_round_trips_that_land_exactly")
+        try:
+            rng.choice([lambda: (p1 * p2) / p2, lambda: (p2 * p1) / p2, lambda: ((p1 * Meter) * (p2 * Meter)) / (p2 * Meter), lambda: (10 * (p1 * byte_)) / (2 * (p1 * byte_)) if byte_ is not None else p1,
+                        lambda: (p1 * p2) * p2 ** -1, lambda: ((p1 * p2) ** 2).root(2) / p2])()
+        except Exception:
+            ctx.count("mixed_base_round_trips_refused")
+        fresh_u = m.Unit.define(m.Length, f"zqc11big{ctx.shard}x{k}", f"zqc11bg{ctx.shard}x{k}")
+        big = 2**53 + 1 + 2 * k
+        case = {"after": f"({n1}*{n2})/{n2}", "magnitude": big}
+        for label, got, want in ((f"({big} * ({n1}*u)).unprefixed()", (big * (p1 * fresh_u)).unprefixed().magnitude, big * 10 ** p1.exponent),
+                                 (f"({big} * u).unprefixed()", (big * fresh_u).unprefixed().magnitude, big),
+                                 (f"({big} * (identity*u)).unprefixed()", (big * (m.IdentityPrefix * fresh_u)).unprefixed().magnitude, big)):
+            if type(got) is not int or got != want:
+                ctx.violation("C11:prefixed-quantity-not-equal-to-scaled", f"after a mixed-base computation that lands on a registered prefix, {label} on a new unit is {got!r}; "
+                              f"prefix factor times magnitude is the integer {want}", case)
+        if not ((big * (p1 * fresh_u)) == (big * 10 ** p1.exponent) * fresh_u) or ((big * fresh_u) == ((big - 1) * fresh_u)):
+            ctx.violation("C11:prefixed-quantity-not-equal-to-scaled", f"after a mixed-base computation that lands on a registered prefix, {big}*({n1}*u) == ({big}*10**{p1.exponent})*u "
+                          f"fails or neighbouring integers compare equal on a new unit", case)
     # roots of quantities whose prefix was applied AFTER the power (kilo * metre**2, not (kilo*metre)**2): the factors have a
     # whole root, the prefix may not.  Either the root is refused (FractionalDimensionError), or its n-th power is the
     # quantity it was taken from - the prefix is part of the value
